@@ -72,11 +72,12 @@ def vclock_cases(ctx, pexpect, n):
                     realized.append('(REof %s)' % cZ(d))
                     raise pexpect.EOF('closed')
                 realized.append('(%s %s)' % ('RHit' if kind == 'hit' else 'RMiss', cZ(d)))
-                return b'MATCH' if kind == 'hit' else b'zz'
+                # a miss may be a short read or a FULL one (as many characters as were asked for: a backlog)
+                return b'MATCH' if kind == 'hit' else b'z' * rng.choice([1, 2, size, size])
 
             def __str__(self):
                 return '<virtual>'
-        sp = S(timeout=30)
+        sp = S(timeout=30, maxread=rng.choice([1, 2, 7, 2000]))
         sp.delayafterread = over if over else None
         old = ex.time
         ex.time = clock
